@@ -7,6 +7,19 @@ func H_C17_uu(n int) {
 	pre := ID{Higher: vU64("pre.hi"), Lower: vU64("pre.lo")}
 	id := pre
 	err := id.UnmarshalText(in)
+	// UnmarshalText is the parser under rule 0: same verdict, the parsed value is what gets stored (whatever the
+	// receiver held before), and a refusal wraps the parser's error (errors.Is / errors.As keep working)
+	pv, perr := DefaultParser(in, 0)
+	vAssert("unmarshal-agrees-with-parser", (err == nil) == (perr == nil))
+	if err == nil {
+		vAssert("successful-unmarshal-stores-the-parsed-value", id == pv)
+	} else {
+		w, wraps := err.(interface{ Unwrap() error })
+		vAssert("unmarshal-error-wraps-the-parser-error", wraps && w.Unwrap() != nil)
+		for _, sentinel := range []error{ErrInputTooLong, ErrURNFormatDisabled} {
+			vAssert("same-sentinels-as-the-parser", errorsIs(err, sentinel) == errorsIs(perr, sentinel))
+		}
+	}
 	vReach("ok", err == nil)
 	vReach("failed", err != nil)
 	if err != nil {
